@@ -64,6 +64,7 @@ def generate(rng, tier):
         mat = L.material(rng)
         cases.append({"q": q, "sq": [float(v) for v in sq], "dr": dr, "mat": mat, "fn": i % 3, "lowq": bool((i // 3) % 2) if i >= 9 else bool(i % 2),
                       "cutoff": (dr[-1] + 1.0 if i < 9 else rng.choice([dr[1], dr[-1] * 0.6, dr[-1] + 1.0])), "ops": list(seq),
+                      "lorch_flag": bool(i % 2),
                       "gq": rng.choice([None, None, (None, q[-1] + 0.37), (q[0] - 0.05, q[-1] + 2.0), (None, q[-1]),
                                         # set on the instance after the merged data exist, cutting into them: the workflow steps act on the merged data as stored
                                         (q[1] + 0.001, None), (None, q[-2]), (q[1], q[-2])]),
@@ -85,7 +86,8 @@ def make_stog(pystog, case):
     m = case["mat"]
     st = pystog.StoG(**{"NumberDensity": m["rho"], "<b_coh>^2": m["bcoh"], "<b_tot^2>": m["btot"],
                         "RealSpaceFunction": SL.FNS[case["fn"]], "OmittedXrangeCorrection": case["lowq"],
-                        "FourierFilter": {"Cutoff": case["cutoff"]}, "Outputs": {"StemName": "c12"}})
+                        "FourierFilter": {"Cutoff": case["cutoff"]}, "Outputs": {"StemName": "c12"},
+                        "LorchFlag": bool(case.get("lorch_flag", False))})
     if case.get("gq"):
         st.qmin, st.qmax = case["gq"]
     st.dr = np.array(case["dr"], float)
